@@ -432,6 +432,22 @@ fn run_m(opts: &Opts, body: &str) -> (String, String) {
     }
 }
 
+fn run_k(body: &str) -> (String, String) {
+    let p: Vec<u32> = body.split(':').map(|x| x.parse().unwrap()).collect();
+    let (start, count, step) = (p[0], p[1], p[2]);
+    let dl = DF::from_message(&nibbles("5D000001000000")).unwrap();
+    let mut o = String::new();
+    for i in 0..count {
+        let a = start + i * step;
+        let r = Plane::from_downlink(&dl, a).reg;
+        if i > 0 {
+            o.push(',');
+        }
+        o.push_str(r);
+    }
+    ("ok".into(), o)
+}
+
 fn main() {
     let a: Vec<String> = std::env::args().collect();
     if a.len() < 4 {
@@ -457,6 +473,7 @@ fn main() {
             "H" => run_h(&opts, body, tmp, id),
             "G" => run_g(body),
             "M" => run_m(&opts, body),
+            "K" => run_k(body),
             _ => ("skip".into(), String::new()),
         };
         writeln!(out, "{}\t{}\t{}", id, outcome, obs).expect("write");
